@@ -60,6 +60,63 @@ def family_small(n, seed, with_ad=True):
     return out
 
 
+def cyclic_family(n, seed, evidence=0.5, neg=0.1):
+    """Propositional programs with dense POSITIVE cycles and shared sub-goals: 3-4 facts, 4-6 derived atoms with 1-3
+    clauses of 1-2 literals each, 2-3 queries, optional evidence ON DERIVED (cyclic) atoms, rare stratified negation
+    (only of facts).  Targets cycle breaking (memo reuse), evidence below cycles and node sharing between goals."""
+    rng = random.Random(seed * 7907 + 5)
+    out, seen, tries = [], set(), 0
+    while len(out) < n and tries < 40 * n + 100:
+        tries += 1
+        p = progs.empty_program(["c1"])
+        facts = ["v", "w", "x", "z"][:rng.randint(3, 4)]
+        for f in facts:
+            p["facts"].append({"p": [rng.choice([1, 2, 3]), 4], "atom": atom(f)})
+        der = ["a", "b", "c", "d", "e", "p"][:rng.randint(4, 6)]
+        bodies = []
+        for d in der:
+            for _ in range(rng.randint(1, 3)):
+                if bodies and rng.random() < 0.2:
+                    b = [dict(l) for l in rng.choice(bodies)]        # same body as another clause: shared nodes
+                else:
+                    b = []
+                    for _ in range(rng.randint(1, 2)):
+                        if rng.random() < 0.6:
+                            b.append(lit(atom(rng.choice(der))))
+                        else:
+                            b.append(lit(atom(rng.choice(facts)), 0 if rng.random() < neg else 1))
+                bodies.append(b)
+                p["rules"].append({"head": atom(d), "body": b})
+        for q in rng.sample(der, rng.randint(2, 3)):
+            p["queries"].append(atom(q))
+        if rng.random() < 0.35:
+            # a goal on a cycle with several proofs before the cycle closes, and an acyclic twin with the same proofs:
+            # their ground disjunctions have the same children (node sharing between a mutable and a readonly node)
+            k = rng.randint(2, 3)
+            proofs = [[lit(atom(rng.choice(facts + der[:2])))] for _ in range(k)]
+            for b in proofs:
+                p["rules"].append({"head": atom("g"), "body": [dict(l) for l in b]})
+            p["rules"].append({"head": atom("g"), "body": [lit(atom("g2"))]})
+            p["rules"].append({"head": atom("g2"), "body": [lit(atom("g"))]})
+            p["rules"].append({"head": atom("g2"), "body": [lit(atom(rng.choice(facts)))]})
+            for b in proofs:
+                p["rules"].append({"head": atom("h"), "body": [dict(l) for l in b]})
+            p["rules"].append({"head": atom("k"), "body": [lit(atom("h")), lit(atom(rng.choice(facts)))]})
+            tw = [atom("g"), atom("h"), atom("k")]
+            if rng.random() < 0.3:
+                rng.shuffle(tw)
+            p["queries"] = tw + p["queries"][:1]
+        if rng.random() < evidence:
+            for e in rng.sample(der, rng.randint(1, 2)):
+                p["evidence"].append({"atom": atom(e), "s": 1 if rng.random() < 0.7 else 0})
+        c = progs.canon(p)
+        if c in seen:
+            continue
+        seen.add(c)
+        out.append(p)
+    return out
+
+
 def sem_check(ctx, P, variants, level="exploration", timeout=60, extra_cov=None, strict_instances=True,
               tol=1e-9, post=None, sig_extra=None, write=True, skip=None):
     """Judge programs P with TLC, run every variant on the real system, compare.
